@@ -19,7 +19,7 @@ SCHED_TRUSTED = [
     "ThreadPoolExecutor.submit / asyncio.ensure_future return a fresh future; Future.result() returns or re-raises the callable's exception",
     "lemma L1 (a non-empty finite node set has a rank-minimal element) and L2 (reachability in successor- / predecessor-closed sub-graphs), machine-checked in lemmas/graph_lemmas.lean (Lean 4 + Mathlib, re-checked in the thorough tier; the transcription Lean statement -> SMT axiom instance is by hand); L3 (a sum over a finite set does not depend on the enumeration order)",
     "for-loop rule: a loop over n distinct elements runs n iterations, in an arbitrary order",
-    "copy.copy / copy.deepcopy: equal, unshared; functools.reduce = left fold; pickle round trip",
+    "copy.copy / copy.deepcopy: equal, unshared; functools.reduce = left fold; pickle round trip; collections.Counter(seq).items() enumerates each distinct element of seq once with its number of occurrences (> 1 iff it occurs at two different indices) - used by detect_duplicates",
 ]
 SCHED_ASSUMPTIONS = [
     "bridge between scheduler-observed state and real time: a pooled node's function runs inside [its submit/ensure_future call, the wait that reports it done] (DESIGN 3.4)",
